@@ -299,14 +299,37 @@ PROPS['C11'] = {
 
 PROPS['C05'] = {
     'level': 'proof',
-    'technique': 'Lean 4 theorems for the hand-assembled layouts on the DER TLV model (TLV round trip; capture layout: content-of-SEQUENCE-OF iterates item by item whereas a capture with header reads as one value; manifest content codec decode(encode)=value with len and iterator, byte-identical re-encoding; times, serial numbers, signed-attribute set in any order + DER signature input) + differential check: every builder (certificates, CRLs, manifests, ROAs, ASPAs, generic signed objects, CSRs, identity certificates, signed messages, RTAs) -> to_captured -> library decoder -> validator -> re-encoder, and a canonical dump of every public accessor/iterator of the built value compared with its decoded twin, oracle evaluated by the Lean driver',
-    'claim': 'Lean 4 proofs (all inputs): readTlv(tlv t c ++ rest) = (t,c,rest); a captured concatenation of item encodings is read back as exactly the items (the layout decoders capture and, since fixes 54fd888/a2fd24b, builders too) while a capture including the SEQUENCE header reads back as one value (why iterating a freshly built ROA attestation failed); manifest content: decodeContent(encodeContent number this next entries) returns exactly those values, len = number of entries, the iterator yields them, re-encoding is byte-identical; CRL revocation list: the counting pass accepts what the builder encodes, the iterator yields exactly the entries, contains() answers membership and cannot fail, and for arbitrary accepted octets lookup and iteration agree (both codec models are tied to the encoders of the library byte for byte by the `enc` and `crlx` operations); time and serial round trips (C17); the three signed attributes are accepted in any order and the signature input is their DER SET OF (C02). Partial: X.509/CMS/CRL/CSR envelopes are not modelled; for them the statement is decided by the correspondence run (decode, validate, re-encode identity, accessor-by-accessor agreement, no panic at any stage).',
-    'note': 'The builder/decoder capture shapes of ROA and ASPA and the manifest encode_ref field order are re-read from the source on every run. Inputs carry a conformity marker (conf=) computed by the generator from the object profiles; out-of-profile inputs are only required not to panic after decoding. One recorded finding: sub-second instants (see KNOWN_FINDINGS.txt).',
+    'technique': 'Lean 4 theorems decode(encode x) = x on hand-written octet-level models of the library\'s writers and readers '
+                 '(TLV layer; capture layouts; manifest, ROA, ASPA contents; CRL revocation list; times, serials; signed attributes; '
+                 'TbsCert/Cert, TbsCertList/Crl, SignedObject, TbsIdCert/IdCert, SignedMessage with its own CRL type) + correspondence: '
+                 'every builder -> to_captured -> library decoder -> validator -> re-encoder with an accessor-by-accessor dump of the built '
+                 'value and its decoded twin; the reader models are compared with the library on the built octets and the writer models must '
+                 'reproduce those octets from the decoded fields',
+    'claim': 'Lean 4 proofs (all inputs in the profile, any sizes): readTlv(tlv t c ++ rest) = (t,c,rest); capture layouts (content of a '
+             'SEQUENCE OF iterates item by item, a capture with header reads as one value); manifest content, ROA content (both families, '
+             'any number of addresses), ASPA content (any provider count) and the CRL revocation list are read back as written, with len, '
+             'iterators and contains() agreeing; times and serial numbers (C17); the three signed attributes in any order (C02). '
+             'Whole objects: TbsCert::from_constructed(TbsCert::encode_ref d) returns all 24 fields of d for every certificate in the '
+             'profile (tbs_cert_roundtrip; IPv4/IPv6/AS resources of any canonical shape, all URI fields, both key types, every '
+             'extension combination) and Cert::take_from reads the whole certificate through bcder\'s capture (cert_roundtrip, via a '
+             'proof that the skip machine accepts every forest of definite-length values); the same for TbsCertList/Crl '
+             '(tbs_crl_roundtrip, crl_roundtrip), SignedObject around a written certificate (sigobj_roundtrip, '
+             'sigobj_with_cert_roundtrip), TbsIdCert/IdCert (tbs_idcert_roundtrip, idcert_roundtrip) and SignedMessage around a written '
+             'identity certificate and CRL (msg_crl_roundtrip, msg_crl_serials, sigmsg_roundtrip); re-encoding what was read gives the '
+             'same octets (tbs_cert_reencode). Partial: CSR and RTA envelopes and the validators\' acceptance of built objects are decided '
+             'by the correspondence run (decode, validate, re-encode identity, accessor-by-accessor agreement, no panic at any stage).',
+    'note': 'The writer models (Model/CertEnc, CrlEnc, CmsEnc, IdEnc, SigMsgEnc) are tied to the library by the `bytes` operations: for every '
+            'object a builder produced, writing the fields the reader model decoded must give the library\'s octets byte for byte (whole '
+            'object and to-be-signed part); the reader models are tied by comparing their reading with the library decoder\'s on the same '
+            'octets (and on ~17k mutants per run under C04). The builder/decoder capture shapes of ROA and ASPA, the manifest encode_ref '
+            'field order and 39 object identifiers are re-read from the source on every run. Inputs carry a conformity marker (conf=) '
+            'computed by the generator from the object profiles; out-of-profile inputs are only required not to panic after decoding. '
+            'One recorded finding: sub-second instants (see KNOWN_FINDINGS.txt).',
     'shards': {'quick': 8, 'thorough': 16},
     'budget': {'quick': 900, 'thorough': 10800},
-    'rule': '4.3k (thorough 43k) builder runs: certificates via TbsCert::new and via every setter (serials 0,1,127,128,255,256,2^63,2^159-1,random; validity incl. 1950/2049/2050/9999 so both time encodings occur; every URI setter; cA/AKI/key usage/EKU; Refuse/Trim; v4/v6/AS resources missing/inherit/blocks of every shape in any insertion order incl. overlapping, adjacent, 0/0, maximum address, AS 0 and 4294967295; RSA and EC keys), CRLs with 0-300 entries (duplicates, any order; contains() for every serial and its neighbours, with and without cache_serials), manifest contents (0-N files), ROA and ASPA contents through five builder APIs (1-16381 providers), complete signed objects (so/mft/roa/aspa) with validate_at/process under a library-built CA, CSRs, identity certificates (TA/EE), signed messages, RTAs; out-of-profile inputs mixed in and marked.',
+    'rule': '4.3k (thorough 43k) builder runs: certificates via TbsCert::new and via every setter (serials 0,1,127,128,255,256,2^63,2^159-1,random; validity incl. 1950/2049/2050/9999 so both time encodings occur; every URI setter; cA/AKI/key usage/EKU; Refuse/Trim; v4/v6/AS resources missing/inherit/blocks of every shape in any insertion order incl. overlapping, adjacent, 0/0, maximum address, AS 0 and 4294967295; RSA and EC keys), CRLs with 0-300 entries (duplicates, any order; contains() for every serial and its neighbours, with and without cache_serials), manifest contents (0-N files), ROA and ASPA contents through five builder APIs (1-16381 providers), complete signed objects (so/mft/roa/aspa) with validate_at/process under a library-built CA, CSRs, identity certificates (TA/EE), signed messages, RTAs; out-of-profile inputs mixed in and marked; every built object additionally through the reader and writer models (`bytes`).',
     'trusted_base': ['the accessor dump functions of the harness (one per type) as the meaning of "every accessor"', 'generator-side conformity classification (conf=/vexp=)'],
-    'assumptions': [],
+    'assumptions': ['certificate and CRL names enter the round-trip theorems as octet strings the name reader accepts (NameOk) that are forests of definite-length values; the names the library derives from keys are shown to be such (nameOk_cn, forest_cn)'],
 }
 
 NOT_APPLICABLE = {
